@@ -126,24 +126,6 @@ theorem throw_delivered_when_run {s : State} (h : Reachable s) (t : TaskId) (e :
   simp only [hidle, hr, runStep, hd]
   cases hm : (s.tasks t).mustCancel <;> cases hx : e.isCancel <;> simp [setTask]
 
-theorem mem_completeFut {s : State} {f : FutId} {st : FutSt} {h : Handle} (hq : h ∈ s.ready) :
-    h ∈ (completeFut s f st).ready := by
-  unfold completeFut; split
-  · exact List.mem_append_left _ hq
-  · exact hq
-
-theorem mem_cancelTask {s : State} {u : TaskId} {h : Handle} (hq : h ∈ s.ready) :
-    h ∈ (cancelTask s u).ready := by
-  unfold cancelTask
-  simp only
-  split
-  · exact hq
-  · split
-    · split
-      · exact mem_completeFut hq
-      · exact hq
-    · exact hq
-
 /-- Only two things remove a queued interrupt: the loop running it, and a later task_throw on the
     same task (supersession).  Every other event keeps it queued. -/
 theorem throw_stays_queued {s : State} (t : TaskId) (e : Exc) (ev : Event)
@@ -277,7 +259,7 @@ theorem no_kernel_error {s : State} (h : Reachable s) : s.err = false := (reacha
     ready queue and `a`'s own handle at its end; the next thing the loop does is raise `e` in `t`;
     `a` is not current and resumes only through its queued handle. -/
 theorem interrupt_runs_next {s : State} (h : Reachable s) (a t : TaskId) (cd : Bool)
-    (ha : s.ctx = .inTask a) (hok : (taskThrow s t cd).2 = .ok) :
+    (_ha : s.ctx = .inTask a) (hok : (taskThrow s t cd).2 = .ok) :
     let s1 := (taskThrow s t cd).1
     let s2 := (reinsert s1 t 0).1
     let s3 := endStep s2 a .yieldNone
